@@ -208,7 +208,17 @@ def c13Verdict (db : V) (encB : List UInt8) (gz : String) : Option String :=
 /-- C01 on the implementation's own encode → decode → encode (representable domain only) -/
 def c01Verdict (inDomain : Bool) (db : V) (decS enc2S gz cp : String) : Option String :=
   let dbT : LtType := .named "DB"
-  if !inDomain then none else
+  if !inDomain then
+    -- values beyond the format's precision: "the same up to the stated precision" is not compared
+    -- (the generator also leaves the representable domain here), but a database that decodes must
+    -- still re-encode to the same bytes
+    (match Spec.quant Spec.schema 64 dbT db with
+     | none => none
+     | some _ =>
+       if decS != "err" && enc2S != "same" && enc2S != "err" && enc2S != "-" then
+         some (if roundsToZero Spec.schema dbT false db then "VIOL clause=lt.reencode tag=omitempty-rounds-to-zero" else "VIOL clause=lt.reencode")
+       else none)
+  else
   match Spec.quant Spec.schema 64 dbT db with
   | none => none                      -- the generator left the domain: nothing is claimed
   | some q =>
